@@ -2750,7 +2750,7 @@ convert_type:
   }
 | VARCHAR openb INTEGRAL closeb
   {
-    $$ = &ConvertType{Type: string($1)}
+    $$ = &ConvertType{Type: string($1), Length: NewIntVal($3)}
   }
 
 expression_opt:
